@@ -92,6 +92,10 @@ func batchMonitor(c BatchCase, obs []addObs, recs []Rec, txs []Tx) []core.Violat
 	}
 	if accepted != len(recs) {
 		vs = append(vs, core.Violation{Property: "C04", Signature: "batch-payload-not-accepted-adds", What: fmt.Sprintf("%d Adds succeeded but the payload has %d records", accepted, len(recs)), Case: c})
+		if accepted > len(recs) {
+			// C15's last clause: a record within every limit is never lost by the batch that took it
+			vs = append(vs, core.Violation{Property: "C15", Signature: "within-limit-record-lost-by-the-batch", What: fmt.Sprintf("%d records were taken by Add without an error but the batch holds %d", accepted, len(recs)), Case: c})
+		}
 	}
 	got := map[string]int{}
 	for _, t := range txs {
@@ -100,6 +104,9 @@ func batchMonitor(c BatchCase, obs []addObs, recs []Rec, txs []Tx) []core.Violat
 	for k, n := range want {
 		if got[k] != n {
 			vs = append(vs, core.Violation{Property: "C04", Signature: "batch-transaction-count-wrong", What: fmt.Sprintf("delivery %s: %d records accepted or counted as dropped, transactions map says %d", k, n, got[k]), Case: c})
+			if got[k] < n {
+				vs = append(vs, core.Violation{Property: "C15", Signature: "record-not-counted-towards-its-transaction", What: fmt.Sprintf("delivery %s: %d records accepted or dropped as too big, the batch counts %d", k, n, got[k]), Case: c})
+			}
 		}
 	}
 	for k, n := range got {
